@@ -318,12 +318,27 @@ func (e *Engine) onData(pkt *spec.Data, sigCovered enc.Wire, raw enc.Wire, pitTo
 func (e *Engine) onNack(name enc.Name, reason uint64) {
 	e.pitLock.Lock()
 	defer e.pitLock.Unlock()
-	n := e.pit.ExactMatch(name)
+
+	// The PIT is keyed by the name without the implicit digest (see Express)
+	var impSha256 []byte = nil
+	nodeName := name
+	if len(name) > 0 && name[len(name)-1].Typ == enc.TypeImplicitSha256DigestComponent {
+		impSha256 = name[len(name)-1].Val
+		nodeName = name[:len(name)-1]
+	}
+
+	n := e.pit.ExactMatch(nodeName)
 	if n == nil {
 		e.log.WithField("name", name.String()).Warn("Received Nack for an unknown interest. Drop.")
 		return
 	}
+	newList := make([]*pendInt, 0, len(n.Value()))
 	for _, entry := range n.Value() {
+		// Only the Interests with exactly the nacked name are resolved
+		if !bytes.Equal(entry.impSha256, impSha256) {
+			newList = append(newList, entry)
+			continue
+		}
 		entry.timeoutCancel()
 		if entry.callback != nil {
 			entry.callback(ndn.ExpressCallbackArgs{
@@ -334,7 +349,11 @@ func (e *Engine) onNack(name enc.Name, reason uint64) {
 			e.log.Fatalf("PIT has empty entry. This should not happen. Please check the implementation.")
 		}
 	}
-	n.Delete()
+	// Pending Interests with longer or shorter names are not affected
+	n.SetValue(newList)
+	n.DeleteIf(func(lst []*pendInt) bool {
+		return len(lst) == 0
+	})
 }
 
 func (e *Engine) onError(err error) error {
